@@ -23,6 +23,7 @@ import Golib.Conc.Lockset
 import Golib.Conc.SeqSpecThms
 import Golib.Conc.Instances
 import Golib.Conc.Deadlock
+import Golib.Conc.Callback
 
 namespace C10
 open Conc
@@ -120,6 +121,50 @@ theorem no_lock_order_deadlock (T : TypeFacts) (h : nestFree T = true) :
     (∀ n m, nests T n false false m = false) ∧
     (∀ w1 w2 : Wait, (w1.holds = none ∨ w1.wants = none) → ¬ cycle2 w1 w2) :=
   ⟨nestFree_sound T h, fun w1 w2 h1 => no_cycle_without_nesting w1 w2 h1⟩
+
+/-! ### callbacks run inside the critical section: nothing of another thread completes meanwhile -/
+
+/-- **callback_window_exclusive.**  `Put`/`PutForce` invoke the user's callback while holding the lock,
+    between taking the snapshot and storing the result (phase `loaded`).  For every reachable state in
+    which thread `t` is there and every schedule segment of other threads' actions — whatever the other
+    goroutines try: Put, Get, Clear, Size … — the shared state is unchanged, still equal to `t`'s
+    snapshot, `t` is still in its callback, and *no operation has been linearized*: nothing of another
+    thread takes effect in the middle of the operation (what the harness's `callbackReentrancy` measures). -/
+theorem callback_window_exclusive (init : σ) (pre : List (Act Op)) (s s' : St σ Op Ret)
+    (hs : runActs step (initSt init) pre = some s) (t : Nat) (op : Op) (v : σ)
+    (hcb : s.ph t = .loaded op v) (others : List (Act Op)) (ho : ∀ a ∈ others, a.actor ≠ t)
+    (hr : runActs step s others = some s') :
+    s'.sh = s.sh ∧ s'.ph t = .loaded op v ∧ linOps s'.log = linOps s.log ∧ s'.sh = v :=
+  Conc.callback_window_exclusive step init pre s s' hs t op v hcb others ho hr
+
+/-- the same for the whole critical section (from `Lock()` to `Unlock()`) -/
+theorem critical_section_exclusive (init : σ) (pre : List (Act Op)) (s s' : St σ Op Ret)
+    (hs : runActs step (initSt init) pre = some s) (t : Nat) (hcs : inCS (s.ph t))
+    (others : List (Act Op)) (ho : ∀ a ∈ others, a.actor ≠ t) (hr : runActs step s others = some s') :
+    s'.sh = s.sh ∧ s'.holder = some t ∧ s'.ph t = s.ph t ∧ linOps s'.log = linOps s.log :=
+  Conc.foreign_run_in_cs step init s s' (Conc.reachable_inv step init pre s hs) t hcs others ho hr
+
+/-- **finding (documented hazard, not a defect of the collections): a callback that calls the queue from
+    its own goroutine never gets the lock** — the mutex is not re-entrant, the holder waits for its own
+    callback: a self-deadlock.  (The harness therefore lets *another* goroutine do the call.) -/
+theorem finding_callback_reentry_never_acquires (init : σ) (pre : List (Act Op)) (s s' : St σ Op Ret)
+    (hs : runActs step (initSt init) pre = some s) (t : Nat) (hcs : inCS (s.ph t))
+    (others : List (Act Op)) (ho : ∀ a ∈ others, a.actor ≠ t) (hr : runActs step s others = some s')
+    (u : Nat) : next step s' (.acq u) = none :=
+  Conc.finding_callback_reentry_never_acquires step init pre s s' hs t hcs others ho hr u
+
+/-- results already handed out never change: the history only grows (for the Go code: a returned slice
+    must not be memory the object keeps using — `C10Gen.slice_results_fresh`) -/
+theorem returned_results_are_final (s s' : St σ Op Ret) (sched : List (Act Op))
+    (hr : runActs step s sched = some s') : ∃ l, s'.log = l ++ s.log :=
+  Conc.returned_results_are_final step s s' sched hr
+
+/-- non-vacuity: thread 1 sits in its callback (snapshot taken) while thread 2 invokes a put and tries to lock -/
+example :
+    (runActs SeqSpec.mstep (initSt []) [.inv 1 (.put 1 2), .acq 1, .load 1, .inv 2 (.put 3 4)]).map
+      (fun s => (s.sh, linOps s.log)) = some ([], []) ∧
+    (runActs SeqSpec.mstep (initSt []) [.inv 1 (.put 1 2), .acq 1, .load 1, .inv 2 (.put 3 4), .acq 2]).isNone = true := by
+  constructor <;> rfl
 
 /-! ### what goes wrong without the lock (the model of a method that forgets it — D18) -/
 
